@@ -2,7 +2,7 @@
    Only statements, closed by [exact lemma], with Print Assumptions beneath. *)
 From Coq Require Import String List NArith ZArith Bool.
 From J5V.lib Require Import Outcome.
-From J5V.model Require Import RulesDecl RulesWrite RulesRead RulesEnum Validate.
+From J5V.model Require Import RulesDecl RulesWrite RulesRead RulesEnum RulesSpec Validate.
 From J5V.gen Require Id62Gen RulesGen.
 From J5V.proofs Require Import RulesProofs RulesReadProofs RulesGenProofs RulesReadGenProofs.
 Import ListNotations.
@@ -27,11 +27,41 @@ Theorem C04_partial :
 Proof. exact c04_object. Qed.
 Print Assumptions C04_partial.
 
+(* ... and the fragment is exact: a compiled object reads back as declared IF
+   AND ONLY IF every property lies in [rt_ok]. So [rt_ok] is not "what could be
+   proved" but the precise extent of the property on the model, and the list of
+   refutations below is complete: what is missing from the full statement is
+   exactly the complement of [rt_ok]. *)
+Theorem C04_exact :
+  forall env ds os,
+    write_object env ds = Ok os ->
+    (read_object env os = Ok (norm_object env ds) <-> forallb rt_ok ds = true).
+Proof. exact c04_object_exact. Qed.
+Print Assumptions C04_exact.
+
+Theorem C04_property_exact :
+  forall env idx d o,
+    write_prop env idx d = Ok o ->
+    (read_prop env o = Ok (norm_prop env idx d) <-> rt_ok d = true).
+Proof. exact c04_prop_exact. Qed.
+Print Assumptions C04_property_exact.
+
 Theorem C04_property :
   forall env idx d o,
     rt_ok d = true -> write_prop env idx d = Ok o -> read_prop env o = Ok (norm_prop env idx d).
 Proof. exact c04_prop. Qed.
 Print Assumptions C04_property.
+
+(* second clause (the printed .proto text): reflection sees a field only through
+   [c04_proj] (name, number, kind, label, optional keyword, the three annotations,
+   the key annotation, the comment). If print + parse preserves that view of
+   every field — which the correspondence checks for every generated object, and
+   which is C05's theorem to prove — the text reflects to the same schema. *)
+Theorem C04_text_clause : forall env os os',
+  Forall2 (fun o o' => c04_proj o = c04_proj o') os os' ->
+  read_object env os' = read_object env os.
+Proof. exact c04_text_clause. Qed.
+Print Assumptions C04_text_clause.
 
 (* names and order are those declared; proto paths are [1], [2], ... *)
 Theorem C04_names_order : forall env ds,
@@ -45,13 +75,13 @@ Proof. exact norm_object_paths. Qed.
 Print Assumptions C04_proto_paths.
 
 (* the normal form of integer rules changes no meaning *)
-Theorem C04_norm_int_meaning : forall r z, int_rule_ok (norm_int r) z = int_rule_ok r z.
+Theorem C04_norm_int_meaning : forall r z, int_sem (norm_int r) z <-> int_sem r z.
 Proof. exact norm_int_sem. Qed.
 Print Assumptions C04_norm_int_meaning.
 
 (* enums as root schemas: description, prefix, option names (short), numbers
    (UNSPECIFIED = 0, the others 1..n in order) and option descriptions *)
-Theorem C04_enum : forall e, unspec_ok e = true -> read_enum (write_enum e) = Ok (norm_enum e).
+Theorem C04_enum : forall e, enum_rt e = true -> read_enum (write_enum e) = Ok (norm_enum e).
 Proof. exact c04_enum. Qed.
 Print Assumptions C04_enum.
 
@@ -84,17 +114,22 @@ Theorem C04_array_any_types_refuted :
 Proof. eexists. split; [vm_compute; reflexivity|]. vm_compute. discriminate. Qed.
 Print Assumptions C04_array_any_types_refuted.
 
-(* key:custom — the pattern becomes (buf.validate.field).string.pattern and is not read back as a key format *)
-Theorem C04_key_custom_refuted :
-  not_read_back (EE [] []) (plain [97] (PSingle (TKey (Some (KCustom [94;97;36])) None None))).
+(* array of key:custom / key:informal — the format lives in (j5.ext.v1.field).key, which the array annotation replaces *)
+Theorem C04_array_key_custom_refuted :
+  not_read_back (EE [] []) (plain [97] (PArray None None (TKey (Some (KCustom [94;97;36])) None None))).
 Proof. eexists. split; [vm_compute; reflexivity|]. vm_compute. discriminate. Qed.
-Print Assumptions C04_key_custom_refuted.
+Print Assumptions C04_array_key_custom_refuted.
 
-(* key:informal — reads back as a key without format *)
-Theorem C04_key_informal_refuted :
-  not_read_back (EE [] []) (plain [97] (PSingle (TKey (Some KInformal) None None))).
+Theorem C04_array_key_informal_refuted :
+  not_read_back (EE [] []) (plain [97] (PArray None None (TKey (Some KInformal) None None))).
 Proof. eexists. split; [vm_compute; reflexivity|]. vm_compute. discriminate. Qed.
-Print Assumptions C04_key_informal_refuted.
+Print Assumptions C04_array_key_informal_refuted.
+
+(* key:custom with list rules — written as a unique_string foreign key, reads back informal *)
+Theorem C04_key_custom_listrules_refuted :
+  not_read_back (EE [] []) (plain [97] (PSingle (TKey (Some (KCustom [94;97;36])) None (Some (LP true false false false []))))).
+Proof. eexists. split; [vm_compute; reflexivity|]. vm_compute. discriminate. Qed.
+Print Assumptions C04_key_custom_listrules_refuted.
 
 (* key without format but with list rules — reads back as informal *)
 Theorem C04_key_listrules_refuted :
@@ -128,8 +163,8 @@ Print Assumptions C04_map_item_listrules_refuted.
 
 Theorem C04_full_refuted : ~ C04_full_statement.
 Proof.
-  intro H. destruct C04_key_custom_refuted as [o [Hw Hr]].
-  specialize (H (EE [] []) [plain [97] (PSingle (TKey (Some (KCustom [94;97;36])) None None))] [o]).
+  intro H. destruct C04_string_format_refuted as [o [Hw Hr]].
+  specialize (H (EE [] []) [plain [97] (PSingle (TStr (Some [117;114;105]) None None))] [o]).
   apply Hr. unfold write_object in H. cbn [write_props_from] in H. rewrite Hw in H. cbn [obind] in H.
   specialize (H eq_refl). cbn [read_object] in H.
   destruct (read_prop (EE [] []) o) as [p| | |]; cbn in H; try discriminate.
@@ -160,10 +195,12 @@ Example C04_example :
               P [99] false false (PArray (Some (AR (Some 1) None (Some true))) (Some [120]) (TEnum (Some (ER [[82]] [[67;95;71]])) None)) [];
               P [100] false false (PSingle (TKey (Some KId62) (Some (EK (Some (EPrimary true)) (Some [116]))) None)) [];
               P [101] false false (PSingle (TDate (Some (TR (Some [50]) None (Some true) None)) None)) [];
+              P [103] false false (PSingle (TKey (Some (KCustom [94;97;36])) None None)) [];
+              P [104] false false (PSingle (TKey (Some KInformal) None None)) [];
               P [102] true false (PMap (Some (MR (Some 1) None)) (TStr None (Some (SR None (Some 2) None)) None)) [] ] in
   forallb rt_ok ds = true /\
   exists os, write_object env ds = Ok os /\ read_object env os = Ok (norm_object env ds)
-             /\ map (fun r => p_req (rp_prop r)) (norm_object env ds) = [true; false; false; true; false; true].
+             /\ map (fun r => p_req (rp_prop r)) (norm_object env ds) = [true; false; false; true; false; false; false; true].
 Proof.
   cbv zeta. split; [vm_compute; reflexivity|].
   eexists. split; [vm_compute; reflexivity|]. split; vm_compute; reflexivity.
